@@ -32,10 +32,10 @@ from sim.core import runner
 
 WATCH = (os.path.join(runner.REPO, 'clastic') + os.sep, '<sinter')
 
-ROUTES = ['ok', 'stream', 'ctx', 'static-small', 'static-big', 'static-missing', 'static-oddtime', 'static-oddtime', 'reroute-branch', 'reroute-branch-noslash', 'reroute-branch-dslash', 'reroute-app', 'reroute-app', 'branch', 'missing', 'm405', 'boom',
+ROUTES = ['ok', 'stream', 'ctx', 'static-small', 'static-big', 'static-empty', 'static-empty', 'static-missing', 'static-oddtime', 'static-oddtime', 'reroute-branch', 'reroute-branch-noslash', 'reroute-branch-dslash', 'reroute-app', 'reroute-app', 'branch', 'missing', 'm405', 'boom',
           'http403', 'meta', 'meta-json', 'gz', 'cache', 'reroute-raise', 'reroute-ep', 'sub-ok', 'empty', 'bytes-big']
 PATH = {'ok': '/ok', 'stream': '/stream', 'ctx': '/ctx', 'static-small': '/s/a.txt', 'static-big': '/s/big.bin',
-        'static-missing': '/s/nope', 'static-oddtime': '/s/odd.txt', 'reroute-branch': '/rb/', 'reroute-branch-noslash': '/rb',
+        'static-missing': '/s/nope', 'static-empty': '/s/empty.txt', 'static-oddtime': '/s/odd.txt', 'reroute-branch': '/rb/', 'reroute-branch-noslash': '/rb',
         'reroute-branch-dslash': '/rb//', 'reroute-app': '/r3/some/path', 'branch': '/b', 'missing': '/missing', 'm405': '/g', 'boom': '/boom',
         'http403': '/forbidden', 'meta': '/meta/', 'meta-json': '/meta/json/', 'gz': '/gz', 'cache': '/cache',
         'reroute-raise': '/rr', 'reroute-ep': '/r2', 'sub-ok': '/in/x', 'empty': '/empty', 'bytes-big': '/big'}
@@ -67,14 +67,33 @@ class SimFileWrapper(object):
             self.filelike.close()
 
 
-def wrapper_type(name, unique, base=None):
+def wrapper_type(name, unique, base=None, beh='inplace'):
+    """beh: 'inplace' (marks the environ it was given and passes it on) | 'copy' (passes a COPY of the environ inward, as
+    wrappers that add keys for the inside only do) | 'sr' (decorates start_response: adds a header of its own) | 'copy+sr'"""
     def wsgi_wrapper(self, inner):
         def wrapped(environ, start_response):
             environ.setdefault('sim.wrappers', []).append(self.tag)
-            return inner(environ, start_response)
+            chain = environ.setdefault('sim.chain', [])
+            seen = environ.setdefault('sim.sr', [])
+            env_in = environ
+            if 'copy' in self.beh:
+                env_in = dict(environ)
+                env_in['sim.copied-by-' + self.tag] = True
+            chain.append(env_in)
+            sr = start_response
+            if 'sr' in self.beh:
+                def sr(status, headers, exc_info=None):
+                    seen.append((self.tag, status, list(headers)))
+                    headers = list(headers) + [(wrapper_header(self.tag), '1')]
+                    return start_response(status, headers, exc_info) if exc_info else start_response(status, headers)
+            return inner(env_in, sr)
         return wrapped
-    return type(str('W' + name), (base or Middleware,), {'unique': unique, 'wsgi_wrapper': wsgi_wrapper,
+    return type(str('W' + name), (base or Middleware,), {'unique': unique, 'wsgi_wrapper': wsgi_wrapper, 'beh': beh,
                                                          '__init__': lambda self, tag: setattr(self, 'tag', tag)})
+
+
+def wrapper_header(tag):
+    return 'X-W-' + tag.replace(':', '-')
 
 
 # deliberately the kind of headers a re-wrapping response object would "correct"
@@ -143,14 +162,14 @@ class C13(Check):
     level_text = ('Seeded search over server behaviours x response kinds x wrapper stacks with a protocol monitor; the '
                   'route-kind x method x consumption x file-wrapper grid is swept once per run for a sampled wrapper stack.')
     level_note = 'Trusted: wsgiref.validate as the reading of PEP 3333; the monitor in sim/core/gateway.py.'
-    required_probes = ('reroute-to-wrapped-application', 'conditional-static-304', 'reroute-through-rewritten-path', 'first-requests-concurrent', 'file-released-after-abort', 'file-released-without-iteration', 'head-no-body', 'reroute-same-environ',
+    required_probes = ('wrapper-passes-copy-of-environ', 'wrapper-decorates-start-response', 'empty-file-through-server-file-wrapper', 'reroute-to-wrapped-application', 'conditional-static-304', 'reroute-through-rewritten-path', 'first-requests-concurrent', 'file-released-after-abort', 'file-released-without-iteration', 'head-no-body', 'reroute-same-environ',
                        'custom-file-wrapper-used', 'debug-500', 'gzip-applied')
 
     def generate(self, seed, tier):
         S = Streams(seed)
         c, rng = S['config'], S['ops']
         names = ['A', 'B', 'C', 'D', 'E']
-        types = dict((n, {'unique': c.random() < 0.75}) for n in names)
+        types = dict((n, {'unique': c.random() < 0.75, 'beh': c.choice(['inplace', 'inplace', 'copy', 'sr', 'copy+sr'])}) for n in names)
         for i, n in enumerate(names[1:], 1):
             if c.random() < 0.3:
                 types[n]['base'] = names[c.randrange(i)]
@@ -204,7 +223,7 @@ class C13(Check):
         classes = {}
         for n, t in sorted(cfg['types'].items()):
             # a subclass of another wrapper type is a different type: both wrap
-            classes[n] = wrapper_type(n, t['unique'], classes.get(t.get('base')))
+            classes[n] = wrapper_type(n, t['unique'], classes.get(t.get('base')), t.get('beh', 'inplace'))
 
         def objs(level, lst):
             return [classes[n]('%s:%s' % (level, n)) for n in lst]
@@ -262,6 +281,8 @@ class C13(Check):
                 f.write(b'small text file\n')
             with open(os.path.join(root, 'big.bin'), 'wb') as f:
                 f.write(bytes(range(256)) * 200)
+            with open(os.path.join(root, 'empty.txt'), 'wb') as f:
+                pass                                                      # a zero-length file
             with open(os.path.join(root, 'odd.txt'), 'wb') as f:
                 f.write(b'a file from the far future\n')
             os.utime(os.path.join(root, 'odd.txt'), (2.6e11, 2.6e11))      # year ~10200: not a datetime (kept by tmpfs)
@@ -375,6 +396,8 @@ class C13(Check):
             res.violate(K + 'file-not-released:%s@%s' % (op['consume'], 'fw-' + str(op.get('fw'))),
                         ctx + ' -> after close() still open: %r' % [os.path.basename(p) for p in leaked], step)
             return
+        if opened and route == 'static-empty' and ex.code == 200 and op.get('fw'):
+            res.probe('empty-file-through-server-file-wrapper')
         if opened and route.startswith('static') and ex.code == 200:
             if op['consume'] == 'abort':
                 res.probe('file-released-after-abort')
@@ -388,6 +411,23 @@ class C13(Check):
         if bad:
             res.violate(K + 'wrapper-order:' + bad[0], ctx + ' -> wrappers entered %r: %s' % (order, bad[1]), step)
             return
+        # the environ the Application itself was handed: what the innermost wrapper passed inward
+        inner_env = env['sim.chain'][-1] if env.get('sim.chain') else env
+        if inner_env is not env:
+            res.probe('wrapper-passes-copy-of-environ')
+        sr_tags = [t for t in order if 'sr' in cfg['types'][t.split(':')[1]].get('beh', '')]
+        missing_h = [t for t in sr_tags if ex.header(wrapper_header(t)) is None]
+        if missing_h:
+            res.violate(K + 'response-bypassed-wrapper@%s' % ('reroute' if route.startswith('reroute') else 'plain'),
+                        ctx + ' -> wrappers %r were entered but the status/headers did not pass through them (headers %r)'
+                        % (missing_h, ex.headers), step)
+            return
+        if sr_tags:
+            res.probe('wrapper-decorates-start-response')
+        # what the innermost start_response-decorating wrapper was handed / else what the server got
+        inner_status, inner_headers = ex.status, ex.headers
+        if sr_tags and env.get('sim.sr'):
+            _, inner_status, inner_headers = env['sim.sr'][0]
         # --- reroute ----------------------------------------------------------
         mode = cfg.get('slash', 'redirect')
         if route in ('reroute-branch-noslash', 'reroute-branch-dslash') and mode != 'rewrite':
@@ -398,7 +438,7 @@ class C13(Check):
             return
         if route == 'reroute-app':
             # the target application's own WSGI wrapper must have run, on the very same environ
-            if not target.app_seen or target.app_seen[-1] is not env:
+            if not target.app_seen or target.app_seen[-1] is not inner_env:
                 res.violate(K + 'reroute-target-app-not-called-as-wsgi', ctx + ' -> the target application\'s WSGI wrapper never saw this environ', step)
                 return
             if ex.header('X-Target-Wrapper') != 'yes' or ex.code != 200 or (op['consume'] == 'drain' and method != 'HEAD' and ex.body != b'inner-application'):
@@ -413,15 +453,17 @@ class C13(Check):
                 res.violate(K + 'reroute-target-not-called', ctx, step)
                 return
             tenv = target.seen[-1]
-            if tenv is not env:
-                res.violate(K + 'reroute-environ-not-same-object', ctx + ' -> the target got a different environ object', step)
+            if tenv is not inner_env:
+                res.violate(K + 'reroute-environ-not-same-object', ctx + ' -> the target got a different environ object than the one '
+                            'the application was called with%s' % (' (it got the server-side dict from outside the wrappers)' if tenv is env else ''), step)
                 return
-            changed = sorted(k for k in snap if k not in tenv or tenv[k] is not snap[k])
+            changed = sorted(k for k in inner_env if k not in tenv or tenv[k] is not inner_env[k]) + \
+                sorted(k for k in snap if k not in tenv or tenv[k] is not snap[k])
             if changed:
                 res.violate(K + 'reroute-environ-entries-changed', ctx + ' -> entries replaced/removed: %r' % changed, step)
                 return
-            if (ex.status, ex.headers) != ('201 Created', TARGET_HEADERS):
-                res.violate(K + 'reroute-response-not-verbatim', ctx + ' -> %r %r' % (ex.status, ex.headers), step)
+            if (inner_status, inner_headers) != ('201 Created', TARGET_HEADERS):
+                res.violate(K + 'reroute-response-not-verbatim', ctx + ' -> %r %r' % (inner_status, inner_headers), step)
                 return
             if op['consume'] == 'drain' and ex.chunks != ([] if method == 'HEAD' else [b'from-', b'target']):
                 res.violate(K + 'reroute-body-not-verbatim', ctx + ' -> %r' % ex.chunks, step)
@@ -429,7 +471,7 @@ class C13(Check):
             res.probe('reroute-same-environ')
             return
         # --- a few status expectations (the rest is C06/C08 territory) -------
-        expect = {'ok': 200, 'stream': 200, 'ctx': 200, 'static-small': 200, 'static-big': 200, 'static-missing': 404,
+        expect = {'ok': 200, 'stream': 200, 'ctx': 200, 'static-small': 200, 'static-big': 200, 'static-empty': 200, 'static-missing': 404,
                   'branch': 302, 'missing': 404, 'boom': 500, 'http403': 403, 'meta': 200, 'meta-json': 200, 'gz': 200,
                   'cache': 200, 'sub-ok': 200, 'empty': 200, 'bytes-big': 200}
         want = expect.get(route)
@@ -438,7 +480,7 @@ class C13(Check):
             want = None
         if route == 'branch':
             want = {'redirect': 302, 'rewrite': 200, 'strict': 404}[mode]
-        if route in ('meta', 'meta-json', 'static-small', 'static-big', 'static-missing', 'static-oddtime', 'sub-ok') and mode == 'strict':
+        if route in ('meta', 'meta-json', 'static-small', 'static-big', 'static-empty', 'static-missing', 'static-oddtime', 'sub-ok') and mode == 'strict':
             want = None      # embedded applications under a strict host: slash handling of their mounts is C07 territory
         if route == 'static-oddtime':
             res.probe('static-file-with-unrepresentable-mtime')
